@@ -259,6 +259,62 @@ theorem bashrc_paths_acknowledged (sts : List Nat) :
 example : sourceBashrcs [.path 0, .path 1, .path 3, .transfer 0] = [.next, .next, .next, .next] ∧
     sourceBashrcs [.path 1, .transfer 2, .path 0] = [.next, .death] := by decide
 
+/-! ## the handler table is the session's own -/
+
+/-- **session_calls_only_own_handlers** — whatever a session dispatches to an additional handler is one of the additional
+commands passed to *this* `generic_handler` call. -/
+theorem session_calls_only_own_handlers (extra lines : List Line) :
+    ∀ w ∈ (handlerSession extra lines).1, w ∈ extra := by
+  induction lines with
+  | nil => simp [handlerSession]
+  | cons l rest ih =>
+    unfold handlerSession
+    by_cases h : firstWord l ∈ extra
+    · simp only [h, if_true]
+      intro w hw
+      rcases List.mem_cons.mp hw with rfl | hw
+      · exact h
+      · exact ih w hw
+    · simp only [h, if_false]
+      split <;> (try split) <;> simp
+
+/-- **unknown_in_session_ends_it** — on a pooled processor, after ANY history of earlier sessions (whatever additional
+commands they registered), a line whose command is neither a fixed command nor one of the current session's additional
+commands ends the current session with UnhandledCommand for exactly that line, after the session's own commands before
+it were served; nothing after it is consumed. -/
+theorem unknown_in_session_ends_it (hist : List (List Line × List Line)) (extra pre : List Line) (l : Line)
+    (rest : List Line) (hpre : ∀ x ∈ pre, firstWord x ∈ extra) (hx : firstWord l ∉ extra) (hb : firstWord l ∉ baseWords) :
+    (serveSessions (hist ++ [(extra, pre ++ l :: rest)])).getLast? = some (pre.map firstWord, .unhandled l) := by
+  have hs : ∀ pre : List Line, (∀ x ∈ pre, firstWord x ∈ extra) →
+      handlerSession extra (pre ++ l :: rest) = (pre.map firstWord, .unhandled l) := by
+    intro pre
+    induction pre with
+    | nil =>
+      intro _
+      have h1 : (firstWord l == wPhases) = false := by
+        apply beq_false_of_ne
+        intro h; exact hb (by simp [baseWords, h])
+      have h2 : firstWord l ∉ otherBaseWords := by
+        intro h; exact hb (by simp [baseWords, h])
+      simp [handlerSession, hx, h1, h2]
+    | cons p ps ih =>
+      intro hp
+      have := ih (fun x hx' => hp x (List.mem_cons_of_mem _ hx'))
+      simp [handlerSession, hp p (List.mem_cons_self ..), this]
+  simp [serveSessions, hs pre hpre]
+
+/-- **session_independent_of_history** — what a session does is a function of its own additional commands and of the
+lines the daemon sends in it; the sessions served before on the same processor do not enter. -/
+theorem session_independent_of_history (h1 h2 : List (List Line × List Line)) (s : List Line × List Line) :
+    (serveSessions (h1 ++ [s])).getLast? = (serveSessions (h2 ++ [s])).getLast? := by
+  simp [serveSessions]
+
+example : serveSessions [(["request_inherit".toList, "key".toList], ["request_inherit foo\n".toList, "key A=1\n".toList,
+      "phases succeeded\n".toList]),
+    (["probe".toList], ["probe\n".toList, "request_inherit foo\n".toList, "phases succeeded\n".toList])]
+    = [(["request_inherit".toList, "key".toList], .finished), (["probe".toList], .unhandled "request_inherit foo\n".toList)] := by
+  decide
+
 /-! ## the programs of the real API are instances of the quantified client programs -/
 
 theorem wf_replicate_preload (n : Nat) (tail : List POp) (h : wf .main tail = true) :
